@@ -6,5 +6,5 @@ set -e
 cd "$(dirname "$0")"
 export CARGO_NET_OFFLINE=true
 python3 tools/extract.py >/dev/null
-(cd lean && lake build askar_model_store askar_model_c06 AskarModel.Props.C01 AskarModel.Props.C04 AskarModel.Props.C05 AskarModel.Props.C06 AskarModel.Props.C07 AskarModel.Props.C16 AskarModel.Props.C17)
-(cd harness && cargo build --offline --no-default-features --features c06)
+(cd lean && lake build askar_model_store askar_model_c06 askar_model_c10 AskarModel.Props.C10 AskarModel.Props.C01 AskarModel.Props.C04 AskarModel.Props.C05 AskarModel.Props.C06 AskarModel.Props.C07 AskarModel.Props.C16 AskarModel.Props.C17)
+(cd harness && cargo build --offline --no-default-features --features c06,c10)
